@@ -352,7 +352,7 @@ func runRoutes(src string, inFunc bool) ([]*obs, string) {
 func main() {
 	env := FromFlags("c01")
 	env.Import = "Otto.C01.Corr"
-	env.Rule = "(a) MiniJS+ programs (coq/C01/Full.v: hoisted var/function declarations, closures, this, arguments, call/apply/bind, constructors with prototype methods, instanceof/typeof/in/delete, while/do-while/for/for-in, switch with fall-through, labelled jumps, try/catch binding/finally) compared with the ES5 reference semantics; (b) MiniJS programs from a weighted grammar (blocks, if, counter-bounded while, labelled statements, break/continue with and without labels, return, throw, try/catch/finally; expressions with assignment, ++, && || ?:, host call log) in function mode and global mode, each submitted by all five routes; non-trivial = distinct program containing at least one jump (break/continue/return/throw) inside a labelled statement, loop or try"
+	env.Rule = "(a) MiniJS+ programs (coq/C01/Full.v: hoisted var/function declarations, closures, this, arguments, call/apply/bind, constructors with prototype methods, instanceof/typeof/in/delete, while/do-while/for/for-in, switch with fall-through, labelled jumps, try/catch binding/finally) compared with the ES5 reference semantics, preceded on every seed by the deterministic families of fulljs.Pinned (operator x operand-kind pairs converted through user valueOf/toString, repeated parameter names x argument count x call route, every route to an indirect eval x this value x calling context, primitive this boxing, non-callable callees); (b) MiniJS programs from a weighted grammar (blocks, if, counter-bounded while, labelled statements, break/continue with and without labels, return, throw, try/catch/finally; expressions with assignment, ++, && || ?:, host call log) in function mode and global mode, each submitted by all five routes; non-trivial = distinct program containing at least one jump (break/continue/return/throw) inside a labelled statement, loop or try"
 	// pinned witnesses of the listed findings come first
 	pinned := []minijs.Program{
 		{InFunc: false, Body: []minijs.Stmt{minijs.SLabelled{L: 1, S: minijs.SIf{E: minijs.Lit{Kind: 2}, A: minijs.SBreak{L: 1}}}, minijs.SExpr{E: minijs.Log{E: minijs.Lit{Kind: 1, N: 5}}}}},
@@ -446,16 +446,50 @@ func main() {
 			env.Add(fmt.Sprintf("PinCase %d %s", 20+i, obs), fmt.Sprintf("[route %d] %s => %v", route, src, o.Val), "pinned-accessor-receiver", true)
 		}
 	}
+	// pinned probes of the arguments object of a function whose parameter list repeats a name (finding class 4,
+	// C01-arguments-dup-param: otto aliases arguments[i] to the parameter also for an EARLIER occurrence of the name;
+	// 10.6 step 11.c maps each name once, to its last occurrence that received an argument); 33 and 34 are controls
+	for i, src := range []string{
+		`function pick(a, b, a) { return arguments[0]; } [pick(1, 2, 3)].join()`,
+		`function pick(a, a) { return arguments[0]; } [pick(1, 2)].join()`,
+		`function pick(a, b, a) { a = 9; return arguments[0]; } [pick(1, 2, 3)].join()`,
+		`function pick(a, b, a) { a = 9; return arguments[2]; } [pick(1, 2, 3)].join()`,
+		`function pick(a, b, a) { return typeof arguments[0] === "undefined" ? 0 : 1; } [pick(1, 2)].join()`,
+		`function pick(a, b, a) { arguments[0] = 9; return a; } [pick(1, 2, 3)].join()`,
+	} {
+		for route := 0; route < 2; route++ {
+			vmP := otto.New()
+			var o Outcome
+			if route == 0 {
+				o = RunJS(vmP, src)
+			} else {
+				o = Guard(func() (otto.Value, error) { return vmP.Eval(src) })
+			}
+			obs := "[]"
+			if o.Err == nil && o.Panic == nil {
+				if n, err := strconv.ParseInt(strings.TrimSpace(o.Val.String()), 10, 64); err == nil {
+					obs = "[" + Cz(n) + "]"
+				}
+			}
+			env.Add(fmt.Sprintf("PinCase %d %s", 30+i, obs), fmt.Sprintf("[route %d] %s => %v", route, src, o.Val), "pinned-arguments-dup-param", true)
+		}
+	}
 	// generate every program first (one PRNG, deterministic), run them on otto in parallel, record them in order
 	type job struct {
-		full  *fulljs.Program
-		mini  *minijs.Program
-		fres  []*fobs
-		fdiff string
-		res   []*obs
-		diff  string
+		full   *fulljs.Program
+		pinned bool
+		mini   *minijs.Program
+		fres   []*fobs
+		fdiff  string
+		res    []*obs
+		diff   string
 	}
 	var jobs []*job
+	// the deterministic MiniJS+ families (operand conversion order, repeated parameter names, this in indirect eval code)
+	for _, fp := range fulljs.Pinned() {
+		fp := fp
+		jobs = append(jobs, &job{full: &fp, pinned: true})
+	}
 	for i := 0; env.Count()+len(jobs) < env.N; i++ {
 		if i >= len(pinned) && i%2 == 1 {
 			// a MiniJS+ program (functions, closures, this, arguments, call/apply/bind, constructors, all loops, switch, for-in)
@@ -510,7 +544,11 @@ func main() {
 			for k, v := range fp.Stats {
 				env.Dist["full:"+k] += v
 			}
-			env.Add(fmt.Sprintf("FCase %s %s %s %s %s", fp.Coq, Clist(res[0].log), res[0].out, res[0].cv, Cbool(diff == "")), txt, "miniJS+", true)
+			bucket := "miniJS+"
+			if jb.pinned {
+				bucket = "miniJS+pinned"
+			}
+			env.Add(fmt.Sprintf("FCase %s %s %s %s %s", fp.Coq, Clist(res[0].log), res[0].out, res[0].cv, Cbool(diff == "")), txt, bucket, true)
 			continue
 		}
 		p, res, diff := jb.mini, jb.res, jb.diff
